@@ -313,4 +313,42 @@ class Facts6:
                             var = fn.names.get(s["lhs"][0]) or "_%d" % s["lhs"][0]
                 if var:
                     out.add((var, "in", rng))
+                    # i in A..B  =>  i < B;  i < min(X, ..)  =>  i < X
+                    hi = rng.split("..", 1)[1] if ".." in rng else None
+                    if hi:
+                        out.add(canon(var, "<", hi))
+                        m = re.match(r"^cmp::min\((.*)\)$", hi)
+                        if m:
+                            out.add(canon(var, "<", m.group(1)))
+        # an index handed out by an iterator over a slice is inside the slice: `for (i, x) in s.iter()..enumerate()`, and the Some
+        # payload of `s.iter()..position(..)` (adaptors in between may only drop items)
+        for c in fn.calls(r"Iterator>?::position$|Iterator>?::next$"):
+            if not c.args or len(c.dest) != 1:
+                continue
+            is_pos = c.name.endswith("::position")
+            rs = fn.roots(c.args[0])
+            calls_ = [r[1] for r in rs if r[0] in ("call", "mutcall")]
+            src = [x for x in calls_ if re.search(r"slice::(<impl \[T\]>::)?iter$|Vec(<.*>)?::iter$", x)]
+            # (adaptors that can only drop items keep the index inside the slice; anything that adds items does not)
+            if not src or any(re.search(r"Iterator>?::(chain|flat_map|flatten|cycle|scan|intersperse|zip)$|iter::(repeat|repeat_with|successors|from_fn|once)", x) for x in calls_):
+                continue
+            if not is_pos and not any(x.endswith("::enumerate") for x in calls_):
+                continue
+            ic = [k for k in fn.calls(r"slice::(<impl \[T\]>::)?iter$|Vec(<.*>)?::iter$") if ("call", k.name) in rs]
+            if len(ic) != 1:
+                continue
+            for sw in fn.discr_switches():
+                if not (sw[1] and sw[1][0] in (fn.copies_of(c.dest[0]) | {c.dest[0]}) and len(sw[1]) == 1):
+                    continue
+                e = [l for l in fn.variant_edges(sw, "Some") if l not in fn.variant_edges(sw, "None")]
+                if not e or sw[0] == site or not fn.only_via(site, sw[0], e):
+                    continue
+                want = "@Some.0" if is_pos else "@Some.0.0"
+                for node, s_ in fn.assigns():
+                    if s_["rv"]["r"] == "use" and len(s_["lhs"]) == 1:
+                        p = op_place(s_["rv"]["o"])
+                        if p and p[0] in (fn.copies_of(c.dest[0]) | {c.dest[0]}) and "".join(map(str, p[1:])) == want:
+                            var = fn.names.get(s_["lhs"][0]) or "_%d" % s_["lhs"][0]
+                            for d in (self.d, self.dx):
+                                out.add(canon(var, "<", "len(%s)" % d.op(ic[0].args[0]).lstrip("&")))
         return out
